@@ -389,7 +389,9 @@ Section SetNP.
       pose proof (make_entry_np env fo ko sfs ek keys) as Hm.
       destruct (make_entry env fo ko sfs keys ek) as [[mk nfs]| |] eqn:E; cbn [snd]; npd.
       rewrite (make_entry_no_nan _ _ Hek _ _ _ E).
-      pose proof (Hrec s (Some (TCont nfs))) as Hr. destruct (rec s (Some (TCont nfs)) prest) as [e' r]. exact Hr.
+      destruct (tl_find mk es) as [e_old|].
+      - pose proof (Hrec s (Some e_old)) as Hr. destruct (rec s (Some e_old) prest) as [e' r]. exact Hr.
+      - pose proof (Hrec s (Some (TCont nfs))) as Hr. destruct (rec s (Some (TCont nfs)) prest) as [e' r]. exact Hr.
     Qed.
 
     Lemma set_first_np s sfs keys cur es k pk : forall l, np (snd (set_first env fo ko o rec s sfs keys ek prest cur es k pk l)).
